@@ -364,7 +364,28 @@ func (g *dgen) method(svc *spec.Service, idx int) *spec.Method {
 	m.Routes = []*spec.Route{{Verb: verb, Path: path}}
 	// ---- result
 	status := 200
-	if t.Draw("has-result", 6) != 5 {
+	if t.Draw("viewed-result", 4) == 0 {
+		// the result is a result type with views, all attributes in the body
+		var u *spec.UserType
+		var have []*spec.UserType
+		for _, x := range g.d.Types {
+			if x.IsResult {
+				have = append(have, x)
+			}
+		}
+		if len(have) > 0 && t.Draw("rt-reuse", 2) == 0 {
+			u = have[t.Draw("rt-which", len(have))]
+		} else {
+			u = g.newResultType()
+		}
+		m.Result = &spec.Attr{Type: &spec.Type{Kind: spec.User, Name: u.Name}}
+		if len(u.Views) > 1 && t.Draw("fixed-view", 4) == 0 {
+			m.FixedView = u.Views[t.Draw("which-view", len(u.Views))].Name
+			g.feat("views:fixed")
+		}
+		m.Responses = []*spec.Response{{Status: 200}}
+		g.feat("result:result-type")
+	} else if t.Draw("has-result", 6) != 5 {
 		r := &spec.Type{Kind: spec.Object}
 		resp := &spec.Response{Status: []int{200, 201, 202}[t.Pick("status", 4, 1, 1)], Headers: map[string]string{}, Cookies: map[string]string{}}
 		nf := 1 + t.Draw("nresult", 5)
@@ -672,4 +693,75 @@ func (g *dgen) secure(svc *spec.Service, m *spec.Method, path *string) {
 			}
 		}
 	}
+}
+
+
+// ---------------------------------------------------------------------------
+// result types with views
+// ---------------------------------------------------------------------------
+
+// newResultType draws a result type with 1-3 views, possibly nesting an earlier one.
+func (g *dgen) newResultType() *spec.UserType {
+	t := g.t
+	g.seq++
+	u := &spec.UserType{Name: fmt.Sprintf("RT%dThing", g.seq), IsResult: true, Identifier: fmt.Sprintf("application/vnd.rt%d", g.seq)}
+	o := &spec.Type{Kind: spec.Object}
+	n := 2 + t.Draw("rt-nfields", 4)
+	off := t.Draw("name-off", len(attrNames))
+	for i := 0; i < n; i++ {
+		var f *spec.Attr
+		if t.Draw("rt-arr", 5) == 0 {
+			f = &spec.Attr{Type: &spec.Type{Kind: spec.Array, Elem: g.prim(LocBody)}}
+		} else {
+			f = g.prim(LocBody)
+		}
+		f.Name = attrNames[(off+i*3)%len(attrNames)]
+		for o.Field(f.Name) != nil {
+			f.Name += "v"
+		}
+		if t.Draw("rt-req", 2) == 0 {
+			f.Required = true
+		}
+		o.Fields = append(o.Fields, f)
+	}
+	// nested result type (defined earlier), rendered with its default view or an override
+	var earlier []*spec.UserType
+	for _, x := range g.d.Types {
+		if x.IsResult {
+			earlier = append(earlier, x)
+		}
+	}
+	if len(earlier) > 0 && t.Draw("rt-nested", 2) == 0 {
+		nu := earlier[t.Draw("rt-which", len(earlier))]
+		f := &spec.Attr{Name: "child", Type: &spec.Type{Kind: spec.User, Name: nu.Name}}
+		if len(nu.Views) > 1 && t.Draw("rt-view-override", 2) == 0 {
+			f.View = nu.Views[1+t.Draw("rt-ov", len(nu.Views)-1)].Name
+			g.feat("views:attribute-override")
+		}
+		o.Fields = append(o.Fields, f)
+		g.feat("views:nested")
+	}
+	u.Attr = &spec.Attr{Type: o}
+	all := make([]string, len(o.Fields))
+	for i, f := range o.Fields {
+		all[i] = f.Name
+	}
+	switch t.Draw("rt-views", 4) {
+	case 0:
+		u.Views = []*spec.View{{Name: "default", Fields: all}}
+		g.feat("views:single")
+	case 1:
+		u.Views = []*spec.View{{Name: "default", Fields: all}, {Name: "tiny", Fields: all[:1]}}
+		g.feat("views:two")
+	case 2:
+		k := 1 + t.Draw("rt-default-k", len(all))
+		u.Views = []*spec.View{{Name: "default", Fields: all[:k]}, {Name: "tiny", Fields: all[len(all)-1:]}, {Name: "full", Fields: all}}
+		g.feat("views:three")
+	default:
+		k := 1 + t.Draw("rt-default-k", len(all))
+		u.Views = []*spec.View{{Name: "default", Fields: all[:k]}, {Name: "extended", Fields: all}}
+		g.feat("views:two-partial-default")
+	}
+	g.d.Types = append(g.d.Types, u)
+	return u
 }
